@@ -3,9 +3,9 @@
    s is reachable from `init K ext roots` by any sequence of labels (any interleaving, any fault
    choice, cancellation of the caller's context at any point). *)
 From Coq Require Import List Arith Bool Lia.
-From Oras Require Import Model.CopyImpl Model.CopyImplDst Proofs.CopyImplBase Proofs.CopyImplInv Proofs.CopyImplInv2 Proofs.CopyImplLive
+From Oras Require Import Model.CopyImpl Model.CopyImplDst Model.CopyAbs Proofs.CopyImplBase Proofs.CopyImplInv Proofs.CopyImplInv2 Proofs.CopyImplLive
   Proofs.CopyImplDeadlock Proofs.CopyImplFault Proofs.CopyImplTerm Proofs.CopyImplSucc Proofs.CopyImplSucc2
-  Proofs.CopyImplOrder Proofs.CopyImplNoFault Proofs.CopyImplDst.
+  Proofs.CopyImplOrder Proofs.CopyImplNoFault Proofs.CopyImplDst Proofs.CopyAbsProto.
 Import ListNotations.
 
 Theorem C04_permits_conserved : forall succ K ext roots s, Reachable succ K ext roots s ->
@@ -192,6 +192,19 @@ Theorem C02_rerun_completes_protocol : forall succ K1 ext1 roots1 K2 ext2 roots2
   forall r n, In r roots2 -> dreach succ r n -> In n (dd x2).
 Proof. exact drerun_completes. Qed.
 Print Assumptions C02_rerun_completes_protocol.
+
+(* Refinement to the abstract specification Model/CopyAbs.v (shared with the spec-level part): every step of the
+   protocol system with a destination taken before the top-level call has returned is an abstract step -- a
+   push (successful, or failing after it stored) is a store whose guard "all successors held" holds, the return
+   of the top-level syncutil.Go is the abstract return (nil only when the closure of the roots is held), every
+   other protocol step is a stutter. *)
+Theorem C02_protocol_refines_abstract : forall succ K ext roots d0,
+  (forall n m, In m (succ n) -> m < n) ->
+  forall x dl x', dclosed succ d0 -> DReachable succ K ext roots d0 x ->
+  result (ds x) = None -> dstep succ x dl = Some x' ->
+  exists l, astep succ (proot roots) pheld (pabs x) l (pabs x').
+Proof. exact dstep_refines. Qed.
+Print Assumptions C02_protocol_refines_abstract.
 
 (* ---- the hypotheses are satisfiable: a concrete DAG (4 -> 3,2 ; 3 -> 1,2 ; 2 -> 0,1), complete runs *)
 Definition ex_succ (n : nat) : list nat :=
